@@ -68,6 +68,7 @@ def run(ctx):
         mo, e = model_run(ref, mv, lines, 2)
         if e:
             uerr.append((u.name, e))
+        st_rej = [0]
         for i, ((l, kind), g, j) in enumerate(zip(ops, go, jo)):
             f = l.split(" ")
             n = 0 if f[5] == "-" else len(f[5]) // 2
@@ -76,6 +77,10 @@ def run(ctx):
             ok = g.startswith("ok ") and len(gf) == 4 and gf[1] == str(n) and gf[3] == f[5] and j == "ok"
             if g.startswith(("panic", "crash", "driver-error")) or j.startswith(("panic", "crash", "driver-error")):
                 ubad.append((u.name, l, g + " | json: " + trunc(j, 200), crash_sig("C04", mv, u, f[2], f[3], g + j)))
+            elif g == "err1":
+                # the generated TL1 reader refuses these bytes (length sanity check, F6 of C01): not a
+                # value decoded from TL1, nothing to convert
+                st_rej[0] += 1
             elif j.startswith("diff json-panic-after-tl2-read"):
                 ubad.append((u.name, l, g + " | json: " + trunc(j, 200), f"C04:json-writer-panics-after-tl2-read:{f[3]}"))
             elif not ok:
@@ -94,6 +99,7 @@ def run(ctx):
             stats["json_ops"] += len(jl)
             stats["go_random_values"] += nr
             stats["negzero_cases"] += len(unegz)
+            stats["tl1_rejected_by_reader"] = stats.get("tl1_rejected_by_reader", 0) + st_rej[0]
             for k, v in src.stats.items():
                 if k != "go_random_values":
                     stats[k] = stats.get(k, 0) + v
